@@ -466,7 +466,7 @@ func (e *docEnv) checkDoc(i int) {
 	r := run.RNG("doc", i)
 	priv := genPriv(r)
 	pub := priv.PubKey().(*ethsecp256k1.PubKey)
-	other := genPriv(r).PubKey().(*ethsecp256k1.PubKey)
+	other := genOtherPub(r, pub)
 	signer := pub.Address().Bytes()
 	d := genDoc(r, signer)
 	perts := perturbations(r, d, signer)
